@@ -30,7 +30,7 @@ inductive Res where
 structure Case where
   site : String
   tmpl : String
-  kind : String       -- lit | key | ident | kindname | param | paramlist
+  kind : String       -- lit | key | ident | kindname | param | paramlist | bname | bkey (builder name / builder key or value)
   hraw : Str
   braw : Str
   hval : Str
@@ -150,7 +150,7 @@ def mism (cls : String) (i : Nat) (th tb : Tok) : Cmp :=
 
 /-- the rule for one pair of non-nested tokens; returns 1 when a value token carries the text under test -/
 def cmpTok (cfg : Cfg) (i : Nat) (th tb : Tok) : Cmp :=
-  let isName := cfg.kind == "ident" || cfg.kind == "kindname"
+  let isName := cfg.kind == "ident" || cfg.kind == "kindname" || cfg.kind == "bname"
   match th, tb with
   | .str vh, .str vb =>
     if vh == vb then .ok 0
@@ -271,9 +271,12 @@ def judgeOk (c : Case) (sqlH : Str) (pgxH : Int) (pH : List (String × PVal))
   let nh := harnessArgs th
   let nb := harnessArgs tb
   let nestedNames := (nb.filterMap (fun i => match (tb[i]? : Option Tok) with | some (Tok.param n) => some n | _ => none))
-  let verbatim := c.kind == "ident" && sqlH == replaceAll c.braw c.hraw sqlB
+  -- the hostile text was written into the SQL text as it is (the twin's text replaced by it gives the hostile SQL)
+  let verbatimName := (c.kind == "ident" || c.kind == "bname") && sqlH == replaceAll c.braw c.hraw sqlB
+  let verbatimKey := (c.kind == "bkey" || c.kind == "obs") && sqlH == replaceAll c.braw c.hraw sqlB
   let fail (cls detail : String) : Verdict :=
-    let cls' := if verbatim && (cls == "shape-mismatch" || cls == "value-mismatch" || cls == "lex-error") then "unquoted-identifier" else cls
+    let generic := cls == "shape-mismatch" || cls == "value-mismatch" || cls == "lex-error"
+    let cls' := if verbatimName && generic then "unquoted-identifier" else if verbatimKey && generic then "unquoted-key" else cls
     { pass := false, cls := cls', detail := detail, ntoks := th.length, nested := nh.length }
   match hasBadTok tb with
   | some t => { pass := false, cls := "benign-lex-error", detail := tokBrief t }
@@ -296,7 +299,7 @@ def judgeOk (c : Case) (sqlH : Str) (pgxH : Int) (pH : List (String × PVal))
         else { pass := false, cls := "comment-escape", detail := "FromCypher text (statement preceded by the Cypher text as -- comment) does not lex to the statement's tokens", ntoks := th.length }
       | _ => { pass := true, cls := if k1 + k2 > 0 then "reached" else "unreached", occ := k1 + k2, ntoks := th.length, nested := nh.length }
 
-def judge (c : Case) : Verdict :=
+def judgeCase (c : Case) : Verdict :=
   match c.h, c.b with
   | .skip, _ => { pass := true, cls := "skipped" }
   | _, _ =>
@@ -322,6 +325,15 @@ def judge (c : Case) : Verdict :=
   | .panic m, .ok _ _ _ => { pass := true, cls := "translator-panic", detail := m }
   | .skip, .ok _ _ _ => { pass := true, cls := "skipped" }
   | .ok sh gh ph, .ok sb gb pb => judgeOk c sh gh ph sb gb pb
+
+/-- kind `obs`: a position outside the property's quantifier (text that is not part of an accepted query, e.g. the
+identity property names of the pg driver's update batches). It is judged like a key position for information, and a
+mismatch is reported as the passing class `outside-quantifier` — the property demands nothing there. -/
+def judge (c : Case) : Verdict :=
+  if c.kind == "obs" then
+    let v := judgeCase c
+    if v.pass then v else { v with pass := true, cls := "outside-quantifier", detail := v.cls ++ ": " ++ v.detail }
+  else judgeCase c
 
 def Verdict.render (c : Case) (v : Verdict) : String :=
   if v.pass then s!"ok {v.cls} occ={v.occ} toks={v.ntoks} nested={v.nested} site={c.site} tmpl={c.tmpl}" ++ (if v.detail.isEmpty then "" else " " ++ v.detail)
